@@ -498,7 +498,14 @@ nonmap_type
  
 type_id
     : MAP '<' nonmap_type arr_list '>' arr_list
-        { $$ = TypeId{
+        {
+          if $4 == 1<<15 - 1 {
+              // MapDim is one more than the inner array dimension.
+              mmlex.(*mmLexInfo).fail($<loc>5, $<val>5,
+                  "too many array dimensions")
+              return 1
+          }
+          $$ = TypeId{
             Tname: $<intern>3.Get($3),
             ArrayDim: $6,
             MapDim: 1 + $4,
